@@ -431,8 +431,8 @@ func (e *Env) Apply(op *Op) []string {
 		if e.f == nil {
 			return []string{"noimg"}
 		}
-		ls, blobs, now, fp, _ := e.doSign(op.S)
-		op.Blobs, op.Now, op.FP = blobs, now, fp
+		ls, blobs, nows, now, fp, _ := e.doSignT(op.S)
+		op.Blobs, op.Nows, op.Now, op.FP = blobs, nows, now, fp
 		return ls
 	case "resign":
 		if e.f == nil {
